@@ -20,11 +20,13 @@ class Variable(Node):
         """
         self.name, _, self.value = self.tokens
         if isinstance(self.name, tuple):
-            if len(self.name) > 1:
-                self.name, pad = self.name
-                self.value.append(pad)
-            else:
-                self.name = self.name[0]
+            # a blank between the name and the colon is not part of the value
+            self.name = self.name[0]
+        # neither is a blank between the value and the semicolon
+        if isinstance(self.value, list) and self.value:
+            last = self.value[-1]
+            if isinstance(last, tuple) and len(last) > 1 and last[-1] == ' ':
+                self.value[-1] = last[:-1]
         scope.add_variable(self)
         return self
 
